@@ -32,6 +32,13 @@ Register(r) ==
   /\ clock' = clock + 1
   /\ last' = [op |-> "register", new |-> "registered", runner |-> r, verdict |-> "ok"]
 
+\* register_new_invocations for an invocation that already has a record ("registers them if they don't exist
+\* yet"): nothing changes, whatever its status - in particular a final status is not left this way
+Reregister(r) ==
+  /\ rec # NoRec
+  /\ UNCHANGED <<rec, clock>>
+  /\ last' = [op |-> "reregister", new |-> "registered", runner |-> r, verdict |-> "ok"]
+
 Req(new, r) ==
   LET v == Verdict(rec, new, r) IN
   /\ last' = [op |-> "req", new |-> new, runner |-> r, verdict |-> v]
@@ -40,6 +47,7 @@ Req(new, r) ==
        ELSE UNCHANGED <<rec, clock>>
 
 Next == \/ \E r \in Runners : Register(r)
+        \/ \E r \in Runners : Reregister(r)
         \/ \E new \in Statuses, r \in Requesters : Req(new, r)
 
 Spec == Init /\ [][Next]_vars
